@@ -141,3 +141,49 @@ claim("C21",
       category="other",
       technique="contract-based: ownership (close only what you opened) contract on the real classes, obligations "
                 "decided on the Python AST, failing obligations replayed natively against sqlite")
+
+claim("C12",
+      "BrokerState.to_serialized, from_workflow and from_serialized are under contract and fully discharged (what is "
+      "written / rebuilt, field by field, for every state, every number of steps, queue lengths, waiters, buffers). The "
+      "property is then a lemma over those contracts (harness lemmas/py/vlemmas/snapshot.py composing the two real "
+      "functions, proved against the callees' contracts): after a snapshot round trip the running flag, step "
+      "configuration, queued attempts with all retry accounting, collected events and waiters (id, replay event, awaited "
+      "type, delivered result, requirements flag) are preserved and in-flight work is re-queued after the queued work, in "
+      "order. Two clauses taken from the statement fail and are recorded known findings (in-flight work loses its retry "
+      "count / recovery budget; a fired waiter timeout is forgotten), each reproduced natively on every run.",
+      "Assumed: serializer round trip on events and importlib on event classes (instances stated as assume_ clauses, "
+      "C18 is not applicable), pydantic model_dump/JSON/model_validate between the two functions is the identity; the "
+      "state store part (ctx.store) and the re-execution after resume (runner) are not covered; idempotence of a "
+      "second round trip is not stated as a clause yet.",
+      category="other")
+
+claim("C13",
+      "replay_ticks_stream (what a restarted server uses to rebuild a run) is proved to start like the live runner, to "
+      "keep the reducer invariant over every persisted tick and to report as the run's outcome only an exit command the "
+      "reducer really emitted for one of those ticks (so a run whose ticks already end it is finalized, not re-run).",
+      "The statement's 'no accepted event is lost' half is NOT decided here: commands of replayed ticks other than the "
+      "exit command are discarded by design and whether their effects were persisted as later ticks is a property of the "
+      "server runtime (persistence_runtime, _on_server_start) that is not under contract; handler status mapping is "
+      "not under contract either.",
+      category="other")
+
+claim("C14",
+      "Where timers live is pinned down by contract: _ControlLoopRunner.process_command is proved to put a delayed retry "
+      "and a waiter timeout into the in-memory schedule only (exactly one entry, due at now+delay) and the snapshot "
+      "lemma (C12) shows what a reload restores; the clause 'a waiter timeout that has fired is still in effect after a "
+      "reload' fails and is a recorded known finding, reproduced natively on every run.",
+      "The property as a whole (timers re-armed after idle release / restart) concerns idle_release_runtime and "
+      "persistence_runtime, which are not under contract: this check decides only the two facts above and must not be "
+      "read as a proof of C14.",
+      category="other")
+
+claim("C24",
+      "In-memory store: _matches_query is proved equal to the conjunction of all given filters (an empty list matches "
+      "nothing) on all 78 paths; query returns exactly the matching handlers, each once, and leaves the store untouched; "
+      "delete removes exactly the matching handlers and returns their number; update / _evict_oldest_completed keep "
+      "every non-terminal handler and drop only the oldest completions, and only when more than max_completed "
+      "completed handlers exist - under the inductive store invariant 'the completion queue lists exactly the completed "
+      "handlers, each once', which every operation is proved to preserve (since fix a483339).",
+      "SQLite store parity is not covered (SQL strings; _build_filters is not under contract); asyncio interleavings "
+      "of store operations are not modelled (each operation has no await between its reads and writes); the order of "
+      "surviving queue entries after delete() is not stated.")
